@@ -595,6 +595,19 @@ func (g *Gen) modifyKind(s *gsession, forced int) {
 
 	if len(s.bearers) == 0 {
 		kind = 3
+
+		// a session without any rule is still a session: it can be modified without creating anything
+		if forced < 0 && g.R.Intn(2) == 0 {
+			if g.R.Intn(2) == 0 {
+				s.cp = g.cpSeid()
+				r.NewCP = s.cp
+			}
+
+			g.Stats["mod_on_empty"]++
+			w.Mod(s.peer, r)
+
+			return
+		}
 	}
 
 	// now and then the downlink half of the session goes (with it the PDRs an address of the pool was allocated for)
@@ -766,10 +779,15 @@ func (g *Gen) modifyKind(s *gsession, forced int) {
 		}
 
 		g.Stats["mod_create"]++
-	case 4: // remove a bearer completely (a session keeps at least one)
-		if len(s.bearers) < 2 {
+	case 4: // remove a bearer completely (now and then the last one, together with the session-level QER: the session is empty then)
+		if len(s.bearers) < 2 && (forced >= 0 || len(s.bearers) == 0 || g.R.Intn(3) > 0) {
 			w.Heartbeat(s.peer)
 			return
+		}
+
+		if len(s.bearers) == 1 && s.sessQER != 0 {
+			r.RQER = append(r.RQER, s.sessQER)
+			s.sessQER = 0
 		}
 
 		i := g.R.Intn(len(s.bearers))
